@@ -402,14 +402,18 @@ impl Report {
             self.outcomes,
             ctx.elapsed_s()
         );
-        if !self.machinery_errors.is_empty() {
-            for e in &self.machinery_errors {
-                eprintln!("MACHINERY-ERROR: {e}");
-            }
-            std::process::exit(2);
+        // A violation that is not a listed finding is a concrete, replayable counterexample: it
+        // decides the run (exit 1) even when a self-check of the harness also failed - on a changed
+        // tree the failed self-check is usually a consequence of the same change. Without such a
+        // violation a failed self-check means "no verdict" (exit 2).
+        for e in &self.machinery_errors {
+            eprintln!("MACHINERY-ERROR: {e}");
         }
         if unknown > 0 {
             std::process::exit(1);
+        }
+        if !self.machinery_errors.is_empty() {
+            std::process::exit(2);
         }
         if self.evaluations == 0 || distinct < 2 {
             eprintln!("MACHINERY-ERROR: vacuous run (evaluations={}, distinct_nontrivial={})", self.evaluations, distinct);
